@@ -43,6 +43,29 @@ Example ex_wild : tree_ok ex_tree = true /\ e_wild ex_entry = true /\ e_source e
   /\ glob ex_tree (e_name ex_entry) = GOk [bs "/etc/aa"; bs "/etc/ab"].
 Proof. vm_compute. repeat split; reflexivity. Qed.
 
+(* round 6: a wildcard source below the build root; nested entries keep their relative paths, and a
+   script with such a line has a documented result *)
+Definition ex_src_tree : tree :=
+  [MkT (bs "/srv") 1 []; MkT (bs "/srv/ov") 1 []; MkT (bs "/srv/ov/aa") 2 []; MkT (bs "/srv/ov/conf.d") 1 [];
+   MkT (bs "/srv/ov/conf.d/aa") 2 []; MkT (bs "/srv/ov/conf.d/local") 1 []; MkT (bs "/srv/ov/conf.d/local/start.sh") 2 []].
+Definition ex_src_entry : entry :=
+  set_ltype (set_source (set_name entry0 (bs "/opt/site") false) (bs "$$stageroot/srv/ov/*") true) V_FileType_dir.
+Example ex_wild_src : tree_ok ex_src_tree = true /\ stageroot_tail (e_source ex_src_entry) = Some (bs "/srv/ov/*")
+  /\ glob ex_src_tree (bs "/srv/ov/*") = GOk [bs "/srv/ov/aa"; bs "/srv/ov/conf.d"]
+  /\ add_src_wild ex_src_tree [] ex_src_entry
+     = AOk [MkL (bs "/opt/site/conf.d/local/start.sh") 2 []; MkL (bs "/opt/site/conf.d/local") 1 [];
+            MkL (bs "/opt/site/conf.d/aa") 2 []; MkL (bs "/opt/site/conf.d") 1 []; MkL (bs "/opt/site/aa") 2 []].
+Proof. vm_compute. repeat split; reflexivity. Qed.
+Definition ex_src_items : list sitem :=
+  [SLine (MkSL [MkF [] QBare (lits "dir"); MkF (bs " ") QBare (lits "/opt/site");
+                MkF (bs " ") QBare (lits "src=$$stageroot/srv/ov/" ++ [FStar])] [])].
+Example ex_list_src : forallb item_ok ex_src_items = true /\ no_kf ex_src_items = true
+  /\ snd (run_list ex_src_tree [] [] (map item_render ex_src_items)) = false
+  /\ doc_run ex_src_tree [] ex_src_items
+     = DOk [bs "/opt/site/conf.d/local/start.sh"; bs "/opt/site/conf.d/local"; bs "/opt/site/conf.d/aa";
+            bs "/opt/site/conf.d"; bs "/opt/site/aa"].
+Proof. vm_compute. repeat split; reflexivity. Qed.
+
 (* a script: add everything below /etc/d*, drop what starts with a, add the file named x*y *)
 Definition ex_items : list sitem :=
   [SLine (MkSL [MkF [] QBare (lits "dir"); MkF (bs " ") QBare (lits "/etc/d" ++ [FStar])] []);
